@@ -15,6 +15,7 @@
 #include <gmp.h>
 #include <gmpxx.h>
 #include <recint/recint.h>
+#include "c06_watchdog.h"
 
 #ifndef C06_NPART
 #define C06_NPART 0
@@ -346,6 +347,7 @@ template <size_t K> static std::string run(const std::string& op, const std::str
 
 int main() {
     std::string line;
+    c06_watchdog_install(); const double budget = c06_cpu_budget();
     // constants of the compiled implementation, compared by the check with the source text and with the model on every run
     std::cout << "#thr " << __RECINT_THRESHOLD_KARA << "\n";
     std::cout << "#limb_bits " << __RECINT_LIMB_BITS << " limb_size " << __RECINT_LIMB_SIZE << " sizeof_limb " << sizeof(limb) << "\n";
@@ -380,6 +382,7 @@ int main() {
             if (d != std::string::npos) { ty = op.substr(d + 1); op = op.substr(0, d); }
         }
         std::string r;
+        c06_arm(budget);
         switch (K) {
             case 6: r = run<6>(op, ty, a); break;
             case 7: r = run<7>(op, ty, a); break;
@@ -389,6 +392,7 @@ int main() {
             case 11: r = run<11>(op, ty, a); break;
             default: r = "BAD-K";
         }
+        c06_disarm();
         std::cout << r << std::endl;
         for (auto z : a) { mpz_clear(*z); delete[] z; }
     }
